@@ -112,7 +112,7 @@ def inject(rng, doc, defect):
         if not names:
             return None
         n = rng.choice(names)
-        bad = rng.choice(["9lives", "a-b", "two words", "", "x.y", "é"])
+        bad = rng.choice(["9lives", "a-b", "two words", "", "x.y", "é", "B2\n", " lead", "trail ", "a\tb"])
         d["Modules"] = {(bad if k == n else k): v for k, v in mods.items()}
         for e in nets:
             for i, x in enumerate(e):
